@@ -44,7 +44,7 @@ BOUNDS = {
 
 def shards(tier, seed):
     out = traces.make_shards(BOUNDS[tier], 2500 if tier == 'quick' else 20000)
-    for L in (130, 300) if tier == 'quick' else (130, 300, 33000):
+    for L in (130, 300, 33000):
         out.append({'long': True, 'L': L})
     # end to end: the event table that comes with real site states (incl. overlapping site spheres, inner fraction 0.5)
     out.append({'e2e': True, 'tier': tier, 'seed': seed})
@@ -110,6 +110,10 @@ def run_long(L, res):
         res.traces += 1
         try:
             df = impl.real_events(trace)
+            if dt == np.int64 and impl.event_rows(df) != hop.change_log(trace):
+                got_rows = impl.event_rows(df)
+                bad = next((k for k, (a, b) in enumerate(zip(got_rows, hop.change_log(trace))) if a != b), min(len(got_rows), len(hop.change_log(trace))))
+                res.violation('events-wrong-for-long-history', case, f'{len(got_rows)} rows; first difference at row {bad}: {got_rows[bad] if bad < len(got_rows) else None}')
             from gemdat.transitions import Transitions
 
             tr = Transitions(trajectory=None, diff_trajectory=None, sites=impl.dummy_sites(2), events=df, states=st, inner_states=np.array(i, dtype=dt))
